@@ -696,12 +696,12 @@ class Rewriter:
             b = b[:cpos] + '    self.len = %s.local_len; /* R16: Drop of the SetLenOnDrop guard */\n        ' % gname + b[cpos:]
             self.fired('R16:guard-drop-explicit')
         # R23: `for PAT in ITER { BODY }` over a by-value iterator is by definition `loop { match ITER.next() { Some(PAT) => BODY, None => break } }`
-        fm = re.search(r'\bfor (\w+) in (iter|range_slice)\s*\{', mask(b))
+        fm = re.search(r'\bfor (\w+) in (iter|iterator|range_slice)\s*\{', mask(b))
         if fm:
             o = fm.end() - 1
             cpos = match_close(mask(b), o)
             body = b[o + 1:cpos]
-            src_it = fm.group(2) if fm.group(2) == 'iter' else fm.group(2) + '.iter()'     # a slice is iterated through `<[T]>::iter`
+            src_it = fm.group(2) if fm.group(2) in ('iter', 'iterator') else fm.group(2) + '.iter()'     # a slice is iterated through `<[T]>::iter`
             b = (b[:fm.start()] + 'let mut %s__it = %s;\n        loop {\n            match %s__it.next() {\n                Some(%s) => {%s}\n                None => { break; }\n            }\n        }'
                  % (fm.group(2), src_it, fm.group(2), fm.group(1), body) + b[cpos + 1:])
             self.fired('R23:for-over-iterator')
@@ -856,7 +856,7 @@ class Rewriter:
         b = self.sub('R12:thread-heap', r'\bself\.vec\.clone_from\(', 'self.vec.clone_from(hs, ds, ', b)
         b = self.sub('R25:forget', r'\bmem::forget\(self\)', 'vec_forget(self.vec)', b)
         b = self.sub('R25:ok-pattern', r'\bOk\(\.\.\) =>', 'Ok(_) =>', b)
-        for name in ['push_str', 'push']:
+        for name in ['push_str', 'push', 'reserve']:
             b = self.map_calls(b, r'\bself\.%s' % name, lambda m_, a, name=name: None if (a and a[0] == 'hs') else 'self.%s(%s)' % (name, ', '.join(['hs'] + a)), 'R12:thread-heap')
         # model types / constructors
         b = self.sub('R25:model-type', r'(?<![\w:])String::with_capacity_in\(', 'StringM::with_capacity_in(hs, ', b)
